@@ -347,7 +347,7 @@ def run(ctx, chk, tier="quick"):
             if len(step_names) == 1:
                 e = bl.get(step_names[0])
                 if e is not None:
-                    sp = sql_poly(e)
+                    sp = sql_poly(e, lambda c: c[2])
                     step_ok = sp == Poly.atom("time_step_s") * _inv3600()
                     sdesc = expr_str(e)
             jp = py_poly(jd)
@@ -355,7 +355,7 @@ def run(ctx, chk, tier="quick"):
             if len(step_names) == 1 and bl.get(step_names[0]) is not None and not (step_ok and prod_ok):
                 # the division by 3600 may be done on either side of the query: compare the composed expression
                 try:
-                    total = jp.subst({step_names[0]: sql_poly(bl[step_names[0]])})
+                    total = jp.subst({step_names[0]: sql_poly(bl[step_names[0]], lambda c: c[2])})
                     if total == Poly.atom(mas.params[3]) * Poly.atom("time_step_s") * _inv3600():
                         step_ok = prod_ok = True
                 except Exception:
